@@ -190,9 +190,8 @@ def witness_stack(ex, name, kind):
     raise ValueError(kind)
 
 
-def h_tx_roundtrip(ex, segwit, max_in, max_out, ukinds, lkinds, wkinds, min_in=1):
-    T, E, S, K, B = _mods()
-    H = _H['d'] if not ex.concrete else E.double_sha256
+def build_raw(ex, segwit, max_in, max_out, ukinds, lkinds, wkinds, min_in=1, mixed=False):
+    """assemble a serialized transaction from a symbolic shape and symbolic content"""
     nin = ex.choose('nin', list(range(min_in, max_in + 1)))
     nout = ex.choose('nout', list(range(1, max_out + 1)))
     version = ex.bytes('version', 4)
@@ -205,11 +204,12 @@ def h_tx_roundtrip(ex, segwit, max_in, max_out, ukinds, lkinds, wkinds, min_in=1
         ex.assume(s_not(s_and(*[b == 0 for b in txid])))      # not a coinbase outpoint
         vout = ex.bytes('vout%d' % k, 4)
         seq = ex.bytes('seq%d' % k, 4)
-        uk = ex.choose('ukind%d' % k, ukinds if not segwit else ['empty'])
+        legacy_input = (not segwit) or (mixed and k == 0)
+        uk = ex.choose('ukind%d' % k, ukinds if legacy_input else ['empty'])
         us = unlocking_script(ex, 'in%d' % k, uk)
         body_in = body_in + txid + vout + cs(len(us)) + us + seq
         if segwit:
-            wk = ex.choose('wkind%d' % k, wkinds)
+            wk = ex.choose('wkind%d' % k, ['none'] if legacy_input else wkinds)
             ws = witness_stack(ex, 'in%d' % k, wk)
             wit = wit + cs(len(ws))
             for item in ws:
@@ -227,6 +227,52 @@ def h_tx_roundtrip(ex, segwit, max_in, max_out, ukinds, lkinds, wkinds, min_in=1
     core_ser = version + cs(nin) + body_in + cs(nout) + body_out
     raw = (version + b'\x00\x01' + cs(nin) + body_in + cs(nout) + body_out + wit + locktime) if segwit else (core_ser + locktime)
     stripped = core_ser + locktime
+    return dict(raw=raw, stripped=stripped, nin=nin, nout=nout, version=version, locktime=locktime, fields=fields, outs=outs,
+                wit_items=wit_items)
+
+
+def h_block_dict(ex, segwit, ukinds, lkinds, wkinds):
+    """Block.parse_transaction_dict (the dictionary reader): rawtx is the transaction's bytes, txid is the hash of the
+    witness-stripped serialization, fields are the serialized fields - same as the Transaction-object reader"""
+    T, E, S, K, B = _mods()
+    H = _H['d'] if not ex.concrete else E.double_sha256
+    r = build_raw(ex, segwit, 1, 1, ukinds, lkinds, wkinds)
+    trailer = b'\x01\x00\x00\x00'          # bytes of a following transaction must not be touched
+    data = r['raw'] + trailer
+    blk = B.Block.__new__(B.Block)
+    blk.txs_data = shims.SBytesIO(data) if not ex.concrete else __import__('io').BytesIO(bytes(data))
+    blk.tx_count, blk.transactions, blk.height, blk.network = 2, [], 100, None
+    if not ex.concrete:
+        shims.install(B, double_sha256=H, BytesIO=shims.SBytesIO)
+    tx = blk.parse_transaction_dict(0)
+    ex.check(tx is not False, 'dict-reader-returns-transaction')
+    ex.check(_eqb(tx['rawtx'], r['raw']), 'dict-rawtx-is-serialized-transaction')
+    ex.check(_eqb(tx['txid'], H(r['stripped'])[::-1]), 'dict-txid-is-hash-of-stripped-serialization')
+    ex.check(blk.txs_data.tell() == len(r['raw']), 'dict-reader-consumes-exactly-one-transaction')
+    ex.check(tx['locktime'] == shims.IntShim.from_bytes(r['locktime'], 'little'), 'dict-locktime')
+    ex.check(_eqb(tx['inputs'][0]['unlocking_script'], r['fields'][0][3]) and _eqb(tx['outputs'][0]['lock_script'], r['outs'][0][1]),
+             'dict-scripts')
+    ex.check(tx['outputs'][0]['value'] == shims.IntShim.from_bytes(r['outs'][0][0], 'little'), 'dict-output-value')
+
+
+def _concrete_stubs(ex):
+    """replay runs the real parsing / serialization code, but keys and signatures inside scripts are arbitrary bytes in
+    a solver model (not curve points / DER): the recording stubs for Key / Signature / Address stay in place"""
+    if not ex.concrete:
+        return
+    T, E, S, K, B = _mods()
+    _H.update(h160=E.hash160)
+    S.Key, S.Signature = FakeKey, FakeSig
+    T.Key, T.Signature, T.Address = FakeKey, FakeSig, FakeAddress
+
+
+def h_tx_roundtrip(ex, segwit, max_in, max_out, ukinds, lkinds, wkinds, min_in=1, mixed=False):
+    T, E, S, K, B = _mods()
+    _concrete_stubs(ex)
+    H = _H['d'] if not ex.concrete else E.double_sha256
+    r = build_raw(ex, segwit, max_in, max_out, ukinds, lkinds, wkinds, min_in, mixed)
+    raw, stripped, nin, nout, version, locktime = r['raw'], r['stripped'], r['nin'], r['nout'], r['version'], r['locktime']
+    fields, outs, wit_items = r['fields'], r['outs'], r['wit_items']
     stream = shims.SBytesIO(raw) if not ex.concrete else __import__('io').BytesIO(bytes(raw))
     try:
         t = T.Transaction.parse_bytesio(stream, strict=True)
@@ -323,5 +369,11 @@ def jobs(tier):
                                 lkinds=[sym] if where == 'out' else ['p2pkh'], wkinds=['sym1'] if where == 'wit' else ['none', 'sig_pubkey']))
             j.cost = 50
             J.append(j)
+    # segwit-format transaction whose first input is a signed legacy P2PKH input (empty witness) and whose second is P2WPKH
+    J.append(Job('tx_mixed_segwit', h_tx_roundtrip, W=80, setup=setup, budget_s=6000,
+                 params=dict(segwit=True, mixed=True, max_in=2, min_in=2, max_out=1, ukinds=['sig_pubkey'], lkinds=['p2pkh'], wkinds=['sig_pubkey'])))
+    for segwit in (False, True):
+        J.append(Job('block_dict_reader_%s' % ('segwit' if segwit else 'legacy'), h_block_dict, W=80, setup=setup, budget_s=3000,
+                     params=dict(segwit=segwit, ukinds=['empty', 'sig_pubkey', sym], lkinds=['p2pkh', 'empty', sym], wkinds=['none', 'sig_pubkey', 'sym1', 'emptyitem'])))
     J.append(Job('block_target', h_target, W=300, setup=setup, budget_s=1500))
     return J
